@@ -70,6 +70,8 @@ def _build_one(root, ent, i, later):
             if os.path.lexists(rp) and not os.path.isfile(rp):
                 return
             data = ent[2]
+            if isinstance(data, dict) and '__b' in data:          # bytes as a replay file carries them
+                data = bytes.fromhex(data['__b'])
             if isinstance(data, str):
                 data = data.encode('utf-8', 'surrogateescape')
             with open(rp, 'wb') as f:
